@@ -24,7 +24,9 @@ var lspTexts = []string{
 	"vars {\n account $a\n}\nsend [USD 1] (\n source = $a\n destination = @b\n)\n",
 	"vars {\n monetary $m = balance(@x, USD)\n}\nsend $m (\n source = @world\n destination = @y\n)\n",
 	// multi-line diagnostics that end at a smaller column than they start
-	"send [COIN 3] (\n source = @a\n   destination = {\n      1/2 to @b\n      1/3 to @c\n }\n)\nset_tx_meta(\"k\"\n)\n",
+	"send [COIN 3] (\n source = @a\n   destination = {\n      1/2 to @b\n      1/3 to @c\n }\n)\nset_tx_meta(\"k\"\n)\n" +
+		// (several diagnostics of the same kind in a row: `remaining` twice before the last clause)
+		"send [COIN 100] (source = { remaining from @a remaining from @b 1/2 from @c } destination = @dest)\n",
 	"set_tx_meta(\"k\", $undefined)\nsend [EUR 2] (\n",
 	"vars {\n portion $p\n portion $p\n}\nsend [COIN 3] (\n source = @a\n destination = { $p to @b\n remaining kept }\n)\n",
 }
